@@ -14,7 +14,7 @@ assert s!=orig, "mutation did not change the file"
 open(sys.argv[2],'w').write(s)
 PY
 (cd $T && diff -u a/$FILE b/$FILE > out.patch || true)
-mkdir -p /verif/selftest/$PROP
-cp $T/out.patch /verif/selftest/$PROP/$NAME.patch
-python3 -c "import json,sys; json.dump({'expect': json.loads(sys.argv[1]), 'why': sys.argv[2]}, open('/verif/selftest/$PROP/$NAME.json','w'), indent=1)" "$EXPECT" "$WHY"
+mkdir -p $(cd "$(dirname "$0")" && pwd)/selftest/$PROP
+cp $T/out.patch $(cd "$(dirname "$0")" && pwd)/selftest/$PROP/$NAME.patch
+python3 -c "import json,sys; json.dump({'expect': json.loads(sys.argv[1]), 'why': sys.argv[2]}, open('$(cd "$(dirname "$0")" && pwd)/selftest/$PROP/$NAME.json','w'), indent=1)" "$EXPECT" "$WHY"
 rm -rf $T
